@@ -58,6 +58,7 @@ package parser
 //@ ensures[grow]  len(f.Lines) == old(len(f.Lines)) || (len(f.Lines) == old(len(f.Lines))+1 && f.Lines[len(f.Lines)-1] == offset)
 //@ ensures[keep]  forall k int :: 0 <= k && k < old(len(f.Lines)) ==> f.Lines[k] == old(verifrt.Snap(f.Lines))[k]
 //@ modifies f.Lines, f.Lines[*]
+//@ split paths
 //@ property C16
 
 //@ func (*SourceFile).Offset
